@@ -59,4 +59,36 @@ def retried (A : AF) (status : Nat) (cfMitigatedChallenge : Bool) : Bool :=
 def attempts (A : AF) (maxRetry : Nat) : Nat :=
   ((List.range (maxRetry + 2)).filter (fun r => A.retryLoopOp.eval r maxRetry)).length
 
+/-! ### one visit of a URL: the retry loop of `archive()` -/
+
+/-- what the site does on one attempt -/
+inductive Attempt
+  | netErr                                      -- no response (reset, timeout, DNS, …)
+  | resp (status : Nat) (challenge : Bool)      -- a response
+deriving DecidableEq, Repr
+
+inductive VisitEnd
+  | failed                      -- retries exhausted: the node is Failed
+  | ok (status : Nat)           -- a response that is kept: the node goes on to body processing
+  | fellThrough                 -- the loop ended by its own condition (never happens with consistent operators)
+deriving DecidableEq, Repr
+
+/-- `for retry := 0; retry LOOPOP MaxRetry; retry++ { one request; on error or bad status: if retry INNEROP MaxRetry
+{ continue } else { Failed; return } ; break }`; `n` counts the requests sent. -/
+def visitFrom (A : AF) (maxRetry : Nat) (site : Nat → Attempt) : (fuel r n : Nat) → Nat × VisitEnd
+  | 0, _, n => (n, .fellThrough)
+  | fuel + 1, r, n =>
+    if !(A.retryLoopOp.eval r maxRetry) then (n, .fellThrough) else
+    let again := A.retryInnerOp.eval r maxRetry
+    match site n with
+    | .netErr => if again then visitFrom A maxRetry site fuel (r + 1) (n + 1) else (n + 1, .failed)
+    | .resp st ch =>
+      if retried A st ch then (if again then visitFrom A maxRetry site fuel (r + 1) (n + 1) else (n + 1, .failed))
+      else (n + 1, .ok st)
+
+def visit (A : AF) (maxRetry : Nat) (site : Nat → Attempt) : Nat × VisitEnd :=
+  if A.retryStartsAtZero && A.retryIncrements && A.retryCounterOnlyInHeader && A.oneRequestPerIteration
+  then visitFrom A maxRetry site (maxRetry + 2) 0 0
+  else (0, .fellThrough)
+
 end Zeno.Model.Warc
